@@ -472,6 +472,18 @@ def check(fx, rep, tier):
                 if recv[0] == "field" and recv[1][0] == "local" and recv[1][2] == "self":
                     rep.oblige(False, "R17.6", f"container-drops:{b['name']}:{c['method']}", F.loc(c["span"]), f"`Errors::{b['name']}` removes recorded errors with `{c['method']}`: an error that was raised and recorded is no longer listed in the result")
     rep.floor("R17.6", n_cont, 5, "methods of the error container scanned for removals")
+    # ... and what is handed to the container is recorded: every adder appends its argument unconditionally (an insertion that
+    # happens only when no error is listed at that location yet drops the second error of a location)
+    n_add = 0
+    for b in fx.fn_bodies():
+        if not (b.get("impl_self") or "").startswith(ERRS) or not b.get("hir") or not (b.get("name") or "").startswith("add"):
+            continue
+        n_add += 1
+        root = b["hir"]["value"]
+        appends = [(c, cps) for c, cps in F.calls(root) if c.get("k") == "MethodCall" and c["method"] in ("push", "extend", "insert", "append", "extend_from_slice", "push_back") and "std::vec::Vec<" in (c.get("recv_ty") or "")]
+        uncond = [c for c, cps in appends if not T.path_conditions(cps, c) and not any(isinstance(a, dict) and a.get("k") in ("If", "Match", "Loop", "Closure") for a, _ in cps)]
+        rep.oblige(bool(uncond), "R17.6", f"adder-unconditional:{b['name']}", F.loc(b["span"]), f"`Errors::{b['name']}` does not append what it is handed on every path (the insertion is conditional or missing): an error that was raised is not listed in the result", sample={"rule": "R17.6", "adder": b["name"], "appends": len(appends)} if n_add <= 2 else None)
+    rep.floor("R17.6", n_add, 3, "adders of the error container")
     # ... and nothing outside the container empties or replaces the buffer as a whole (mem::take on it, an assignment)
     from .c06 import check_no_replacement
 
